@@ -61,5 +61,5 @@ ExpectedScan(s) == [start |-> s.start, stop |-> s.stop, reversed |-> s.reversed,
                     closeScanner |-> FALSE, renew |-> FALSE, handlesPartials |-> TRUE, handlesHeartbeats |-> TRUE]
 
 (* ---- mutation extras: durability 0..4 as given; a TTL becomes attribute "_ttl" = 8-byte big-endian milliseconds *)
-MutExtras == [durability : 0..4, ttlMs : {Absent, 0, 5000}]
+MutExtras == [durability : 0..4, ttlMs : {Absent, 0, 250, 1500, 5000}]     \* (TTLs that are no whole number of seconds too)
 =============================================================================
